@@ -12,7 +12,10 @@ for p, m in reg.get("property", {}).items():
 bad = 0
 env = dict(os.environ, RUSTFLAGS="--cfg embedded_graphics_verif", CARGO_NET_OFFLINE="true")
 for fs in sorted(sets):
-    r = subprocess.run(["cargo", "check", "--offline", "--no-default-features", "--features", ",".join(fs)], cwd=os.path.join(V, "harness"), env=env, capture_output=True, text=True)
+    cfgs = [f[4:] for f in fs if f.startswith("cfg:")]
+    feats = [f for f in fs if not f.startswith("cfg:")]
+    e2 = dict(env, RUSTFLAGS=" ".join([env["RUSTFLAGS"]] + [f"--cfg {c}" for c in cfgs]))
+    r = subprocess.run(["cargo", "check", "--offline", "--no-default-features", "--features", ",".join(feats)], cwd=os.path.join(V, "harness"), env=e2, capture_output=True, text=True)
     ok = r.returncode == 0
     print(("ok   " if ok else "FAIL ") + ",".join(fs))
     if not ok:
